@@ -25,6 +25,14 @@ def cfg():
     return c
 
 
+def cfg_sub():
+    """As cfg(), with the leaf a/b subscribed and its UIDVALIDITY revealed (a subscribed mailbox is kept as a place holder when it is deleted)."""
+    c = cfg()
+    c["name"] = "c02-sub"
+    c["prelude"] = [{"s": "A", "op": "select", "m": "a/b"}, {"s": "A", "op": "subscribe", "m": "a/b"}, {"s": "A", "op": "select", "m": "INBOX"}]
+    return c
+
+
 # ------------------------------------------------------------------------------------------
 # an MH tool removes messages behind the server's back (rmm): the "folder shrank" recovery
 def shrink_cases(tier):
@@ -188,11 +196,15 @@ def run(tier, seed, jobs):
     vv_core = [{"s": A, "op": "create", "m": "n"}, {"s": A, "op": "delete", "m": "n"}, {"s": A, "op": "select", "m": "n"},
                {"s": A, "op": "rename", "m": "n", "to": "m"}, {"s": A, "op": "select", "m": "m"}, {"s": "env", "op": "restart"},
                {"s": A, "op": "delete", "m": "m"}]
+    sub_core = [{"s": A, "op": "delete", "m": "a/b"}, {"s": A, "op": "create", "m": "a/b"}, {"s": A, "op": "select", "m": "a/b"},
+                {"s": A, "op": "unsubscribe", "m": "a/b"}, {"s": A, "op": "subscribe", "m": "a/b"}, {"s": "env", "op": "restart"}]
     res = run_h(PROP, RULES, [{"cfg_ref": ("vf.props.c02", "cfg", []), "alphabet": alphabet(tier), "depth": depth, "label": "INBOX(2),a,a/b"},
                                {"cfg_ref": ("vf.props.c02", "cfg", []), "alphabet": core, "depth": 5 if tier == "quick" else 6,
                                 "label": "INBOX selected; core alphabet (messages go, come, pack, restart), deep"},
                                {"cfg_ref": ("vf.props.c02", "cfg", []), "alphabet": vv_core, "depth": 5 if tier == "quick" else 6,
-                                "label": "UIDVALIDITY core alphabet (create, delete, re-create, rename, select, restart), deep"}],
+                                "label": "UIDVALIDITY core alphabet (create, delete, re-create, rename, select, restart), deep"}]
+                               + [{"cfg_ref": ("vf.props.c02", "cfg_sub", []), "alphabet": sub_core, "depth": 4 if tier == "quick" else 6,
+                                   "label": "leaf a/b subscribed and its UIDVALIDITY seen: delete (place holder while subscribed), create again, select, (un)subscribe"}],
                  ("C02",), jobs, seed,
                  ["one session; mailboxes INBOX(2 messages), a, a/b; pack threshold lowered to 3 messages / ratio 0.8 via the class attributes",
                   "restart = orderly shutdown() + real start-up sequence on the same directory",
